@@ -13,7 +13,7 @@ import numpy
 from .. import core, terms as T, irspace, irtools, loopspace as LS, extraspace as XS
 
 LEVEL = 'exploration'
-RULE = ('for every term (float space depth<=2, integer alphabet depth<=2 with exhaustive int valuations in {-2..2}, loop programs) every distinct '
+RULE = ('for every term (float space depth<=2; integer alphabet: quick = all 29 int operations at depth 1 and the 14 range-inference operations over 7 leaves at depth 2, thorough = all at depth 2; exhaustive int valuations in {-2..2}; loop programs; structured families) every distinct '
         'node of the built DAG and of its simplified form is evaluated (loop-body nodes at every iteration) and compared with its announced ndim, '
         'shape, dtype, argument set and integer bounds; simplified int terms are compared with the original on all valuations. '
         'non-trivial = distinct (node hash) with finite integer bounds on at least one side, or whose shape is a computed (non-constant) expression, '
@@ -25,11 +25,15 @@ BUDGET_S = {'quick': 400, 'thorough': 5000}
 INT_OPS = ['add', 'multiply', 'subtract', 'negative', 'abs', 'sign', 'mod', 'floordiv', 'minimum', 'maximum', 'sum', 'inrange', 'normdim',
            'ravelindex', 'sizestooffsets', 'argsort', 'searchsorted', 'takearg', 'getl', 'choose', 'greater', 'less', 'equal', 'toint', 'take',
            'inflatearg', 'powc', 'insertaxis', 'product']
+RANGE_OPS = ['add', 'multiply', 'subtract', 'negative', 'abs', 'sign', 'mod', 'floordiv', 'minimum', 'maximum', 'sum', 'inrange', 'normdim', 'takearg']
 PROFILES = {
-    'quick': [{'name': 'int-d2', 'leaves': 'int', 'consts': False, 'ops': INT_OPS, 'depth': 2},
+    # quick: the whole integer alphabet at depth 1 (1.5 k terms), the range-inference operations over a 7-leaf subset at depth 2 (40 k terms;
+    # the full alphabet has 3.2e5 depth-2 terms with up to 1500 valuations each: thorough)
+    'quick': [{'name': 'int-d1', 'leaves': 'int', 'consts': False, 'ops': INT_OPS, 'depth': 1},
+              {'name': 'int-d2-range', 'leaves': 'int-small', 'consts': False, 'ops': RANGE_OPS, 'depth': 2},
               {'name': 'float-d1', 'leaves': 'mixed', 'consts': True, 'ops': 'all', 'depth': 1},
               {'name': 'float-d2-core', 'leaves': 'sq', 'consts': False, 'ops': 'core', 'depth': 2}],
-    'thorough': [{'name': 'int-d2', 'leaves': 'int', 'consts': False, 'ops': 'all', 'depth': 2},
+    'thorough': [{'name': 'int-d2', 'leaves': 'int', 'consts': False, 'ops': INT_OPS, 'depth': 2},
                  {'name': 'float-d2', 'leaves': 'f7', 'consts': True, 'ops': 'all', 'depth': 2}],
 }
 NPARTS = {'quick': {1: 2, 2: 120}, 'thorough': {1: 4, 2: 600}}
